@@ -1487,6 +1487,10 @@ func (ctx Ctx) forStmt(s *ast.ForStmt) coq.ForLoopExpr {
 			ctx.unsupported(s.Post, "post cannot bind names")
 		}
 		post = postBlock.Expr
+		if _, isLog := post.(coq.LoggingStmt); isLog {
+			// a logging call is printed as a comment, which is no expression
+			post = coq.Skip
+		}
 	}
 
 	body := ctx.blockStmt(s.Body, ExprValLoop)
